@@ -205,9 +205,36 @@ def bounded_graphs(tier, seed):
         distinct.add(label)
         if err:
             failures.append({"id": "bounded:build_schemas:deep", "detail": f"{label}: {err}", "input": {"document": label}})
+    # degenerate reference structures: they may be rejected, but loading must END (an ordinary error or a result), never exhaust the interpreter stack
+    R_ = "#/components/schemas/"
+    rings = {
+        "alias ring of 2": {"A": {"$ref": R_ + "B"}, "B": {"$ref": R_ + "A"}, "Use": {"type": "object", "properties": {"a": {"$ref": R_ + "A"}}}},
+        "alias ring of 3 used from an array": {"A": {"$ref": R_ + "B"}, "B": {"$ref": R_ + "C"}, "C": {"$ref": R_ + "A"}, "Use": {"type": "array", "items": {"$ref": R_ + "B"}}},
+        "self alias": {"A": {"$ref": R_ + "A"}, "Use": {"type": "object", "additionalProperties": {"$ref": R_ + "A"}}},
+        "alias chain ending in a real schema": {"A": {"$ref": R_ + "B"}, "B": {"$ref": R_ + "C"}, "C": {"type": "object", "properties": {"x": {"type": "string"}}}},
+        "allOf ring": {"A": {"allOf": [{"$ref": R_ + "B"}]}, "B": {"allOf": [{"$ref": R_ + "A"}]}},
+        "oneOf ring": {"A": {"oneOf": [{"$ref": R_ + "B"}, {"type": "string"}]}, "B": {"oneOf": [{"$ref": R_ + "A"}]}},
+        "items ring": {"A": {"type": "array", "items": {"$ref": R_ + "B"}}, "B": {"type": "array", "items": {"$ref": R_ + "A"}}},
+        "dangling reference": {"A": {"type": "object", "properties": {"x": {"$ref": R_ + "Nowhere"}}}},
+    }
+    import sys as _sys
+    for label, raw in rings.items():
+        n += 1
+        distinct.add(label)
+        try:
+            build_schemas_ = __import__("pyopenapi_gen.core.loader.schemas.extractor", fromlist=["build_schemas"]).build_schemas
+            lim = _sys.getrecursionlimit()
+            try:
+                build_schemas_(raw, {"schemas": raw})
+            finally:
+                _sys.setrecursionlimit(lim)
+        except RecursionError:
+            failures.append({"id": "bounded:build_schemas:degenerate-references", "detail": f"{label}: RecursionError (interpreter stack exhausted)", "input": {"schemas": raw}})
+        except Exception:  # noqa  (an ordinary, prompt rejection is fine)
+            pass
     return {"function": "build_schemas with the tracker contracts monitored at every enter/exit event", "backend": "run-time contract monitor",
             "bound": "all pairs of edges over 2 (quick) / 3 (thorough) named schemas x 7 edge kinds x declaration orders (sampled to a cap), "
-                     "plus 10 deep / long documents (320..1200 levels; limits 1,2,5,150)",
+                     "plus 10 deep / long documents (320..1200 levels; limits 1,2,5,150) and 8 degenerate reference structures (alias / allOf / oneOf / items rings)",
             "evaluations": n, "distinct_nontrivial": len(distinct), "exhaustive": False, "failures": failures}
 
 
